@@ -56,6 +56,15 @@ MUTATION_DRILLS = [
               "them a 3-row source; an out-of-range syllable id 118 of 8 is reported as an invented code, not an exception); "
               "before the parsers were hardened and the prefix-tail family added this ended as check-crashed",
      "unit_tests": "not run (table_test's two long entries are not prefix-related)"},
+    {"mutation": "EntryCollector gains sorted_by_weight (cleared by CreateEntry when a raw weight goes up, last_weight reset per "
+                 "source file in Collect(path)); DictCompiler::BuildTable calls SortHomophones only when the flag was cleared - pages "
+                 "merged from several individually sorted files, and single files listing 1e-20 before 0, stay unsorted; "
+                 "drill of round 2, /repo at 153d253",
+     "fired": "VIOLATION enumeration:within-budget:weight-order with a 24-row primary+import source of the imports-presorted family "
+              "(entries of one 2-syllable code not in non-increasing weight); the single-file trigger (A x 1e-20 / B x 0 enumerated "
+              "-46.05 before -36.04) was confirmed on the mutated build; before the imports-presorted / presorted-raw-weights "
+              "families existed this change was missed (exit 0)",
+     "unit_tests": "not run"},
     {"mutation": "git revert 44f49d3 (the fix: estimate back to 4096+32S+64N)",
      "fired": "VIOLATION table-build:over-budget + proof broken (translator: EstLinear)", "unit_tests": "87 passed (not detected by the test suite)"},
 ]
@@ -122,7 +131,8 @@ def dec_bits(mhex, e):
 WEIGHT_POOL = [b"", b"0", b"1", b"2", b"3", b"5", b"7", b"10", b"15", b"22", b"33", b"50", b"75", b"100", b"150",
                b"1000", b"12345", b"99999", b"1e6", b"2.5e7", b"1e15", b"1e100", b"1e300", b"0.5", b"0.25", b"0.001",
                b"1e-10", b"1e-300", b"3.14159", b"42%", b"100%", b"%", b"x", b"1e400", b"1e-400", b"1.0", b"1.", b".5",
-               b"5e0", b"+7", b"0.0", b"00012", b"18446744073709551616", b"2E3"]
+               b"5e0", b"+7", b"0.0", b"00012", b"18446744073709551616", b"2E3",
+               b"1e-20", b"1e-17", b"3e-100"]
 
 
 def weight_grid():
@@ -272,6 +282,48 @@ class Gen:
                     rows.append((self.text(), prefix[:rng.randint(1, 3)], self.weight()))  # a short code on the path
         return rows
 
+    def rows_presorted_files(self, nfiles, sylls, per_code):
+        """a primary dictionary and its import tables, every file listing its rows in non-increasing raw
+        weight, the files sharing codes (one syllable, 2-3 syllables, >= 4 syllables in one tail page) with
+        weights that interleave across the files: a page merged from several files is NOT sorted unless
+        SortHomophones runs."""
+        rng = self.rng
+        codes = [[rng.choice(sylls)] for _ in range(rng.randint(1, 2))]
+        codes += [[rng.choice(sylls) for _ in range(rng.choice([2, 3]))] for _ in range(rng.randint(1, 3))]
+        prefix = [rng.choice(sylls) for _ in range(3)]
+        codes += [prefix + [rng.choice(sylls) for _ in range(rng.randint(1, 4))] for _ in range(rng.randint(1, 3))]
+        pool = list(WEIGHT_GRID) + [b"0", b"", b"1e-20", b"1e-300", b"0.5", b"1e15", b"7%"]
+        files = [[] for _ in range(nfiles)]
+        for code in codes:
+            ws = rng.sample(pool, min(len(pool), per_code * nfiles))
+            for i, w in enumerate(ws):
+                files[i % nfiles].append((self.text(), list(code), w))   # round robin: weights interleave
+        for f in files:
+            f.sort(key=lambda r: -stod_weight(r[2]))
+        return files
+
+    def rows_presorted_single(self, sylls, n):
+        """one file already listed in non-increasing RAW weight, with tiny positive weights (below
+        DBL_EPSILON) next to zero / absent / invalid ones: by stored weight (log of w > 0 ? w : DBL_EPSILON)
+        the zero rows outrank the tiny ones"""
+        rng = self.rng
+        codes = [[rng.choice(sylls)], [rng.choice(sylls) for _ in range(2)]]
+        prefix = [rng.choice(sylls) for _ in range(3)]
+        codes.append(prefix + [rng.choice(sylls)])
+        if rng.random() < 0.5:
+            codes.append(prefix + [rng.choice(sylls), rng.choice(sylls)])
+        pool = [b"1e-20", b"1e-300", b"1e-17", b"3e-100", b"0", b"", b"x", b"0.0", b"9%", b"1e-400", b"1", b"2", b"1e-10",
+                rng.choice(WEIGHT_GRID)]
+        rows = []
+        for _ in range(n):
+            rows.append((self.text(), list(rng.choice(codes)), rng.choice(pool)))
+        # every code gets a tiny positive and a zero weight
+        for code in codes:
+            rows.append((self.text(), list(code), rng.choice([b"1e-20", b"1e-300", b"3e-100"])))
+            rows.append((self.text(), list(code), rng.choice([b"0", b"", b"x"])))
+        rows.sort(key=lambda r: -stod_weight(r[2]))
+        return rows
+
     def rows_words(self, n, sylls):
         rng = self.rng
         texts = [self.text() for _ in range(max(1, n // 3))]
@@ -283,13 +335,13 @@ class Gen:
         return rows
 
     # -- a file from rows
-    def file_lines(self, rows, columns):
+    def file_lines(self, rows, columns, junk=True):
         """-> (lines, effective rows): junk lines are interleaved, rows are formatted by column order"""
         rng = self.rng
         cols = columns or ["text", "code", "weight"]
         lines, eff = [], []
         comments_on = True
-        junk_p = rng.choice([0.0, 0.0, 0.05, 0.2])
+        junk_p = rng.choice([0.0, 0.0, 0.05, 0.2]) if junk else 0.0
         for (t, code, w) in rows:
             while rng.random() < junk_p:
                 k = rng.random()
@@ -331,14 +383,14 @@ class Gen:
             eff.append((t, list(code), w))
         return lines, eff
 
-    def make(self, name, kind, rows_per_file, sort_original, columns_per_file=None):
+    def make(self, name, kind, rows_per_file, sort_original, columns_per_file=None, junk=True):
         """rows_per_file: list of row lists; file 0 is the main dictionary, the others are imported"""
         rng = self.rng
         files, all_rows = [], []
         names = [name] + ["%s_imp%d" % (name, i) for i in range(1, len(rows_per_file))]
         for i, rows in enumerate(rows_per_file):
             columns = columns_per_file[i] if columns_per_file else rng.choice(COLUMN_ORDERS)
-            lines, eff = self.file_lines(rows, columns)
+            lines, eff = self.file_lines(rows, columns, junk)
             files.append({"name": names[i], "columns": columns, "lines": lines,
                           "imports": names[1:] if i == 0 else []})
             all_rows += eff
@@ -751,11 +803,23 @@ def plan_cases(g, rng, tier):
     cases = []
     big = tier != "quick"
 
-    def add(kind, rows_per_file, so=None, columns=None):
+    def add(kind, rows_per_file, so=None, columns=None, junk=True):
         name = "d%d" % len(cases)
         so = rng.random() < 0.35 if so is None else so
-        c = g.make(name, kind, rows_per_file, so, columns)
+        c = g.make(name, kind, rows_per_file, so, columns, junk)
         cases.append(c)
+
+    worders = [None, ["text", "code", "weight"], ["code", "text", "weight"], ["text", "weight", "code"], ["weight", "code", "text"]]
+    for i in range(10 if not big else 30):
+        # every file sorted on its own, pages merged from several files, sort by weight (default)
+        nf = rng.choice([2, 2, 3])
+        s = g.syllables(rng.choice([1, 2, 4, 9]))
+        add("imports-presorted", g.rows_presorted_files(nf, s, rng.choice([1, 2, 4])), so=False,
+            columns=[rng.choice(worders) for _ in range(nf)], junk=False)
+    for i in range(6 if not big else 18):
+        s = g.syllables(rng.choice([1, 2, 5]))
+        add("presorted-raw-weights", [g.rows_presorted_single(s, rng.choice([0, 4, 20]))], so=False,
+            columns=[rng.choice(worders)], junk=False)
 
     add("empty", [[]])
     add("empty", [[]], so=True)
